@@ -1,16 +1,23 @@
 """C16 At most one publisher per path; replaced publishers are cut off — spec/core/Path.tla"""
 import pathcheck
+import stalewriter
 
 LEVEL = "model_checking"
 LEVEL_TEXT = ("Path.tla transcribes the path event loop; TLC checks AtMostOneSource / RejectedUnlessOverride / "
               "ClosedBeforeAttach on every behaviour of the bounded model; edge-covering walks of the state graph are "
-              "replayed on the real pathManager+path and TLC evaluates the same monitors on the observed events")
+              "replayed on the real pathManager+path and TLC evaluates the same monitors on the observed events; second "
+              "stage (StaleWriter.tla): the lock protocol between a replaced publisher's WriteUnit, the replacement's "
+              "SubStream.Initialize and a third-party read-lock holder is model-checked (writer-preferring RW lock) and every "
+              "gate schedule of the model is replayed on a real stream.Stream with goroutine parking observed through "
+              "runtime.Stack; TLC judges 'no unit of the replaced publisher reaches a reader after the swap'")
 LEVEL_NOTE = ("2 publishers, 2 readers, 1 describe; sequential requests; publishers write units through the (possibly stale) "
               "sub-stream handles they hold and harness stream readers report which publisher's unit reached them; "
-              "alwaysAvailable profiles included")
+              "alwaysAvailable profiles included; the stale-writer stage relies on the sync.RWMutex contract (a pending Lock "
+              "blocks new RLocks)")
 
 
 def run(ctx):
     pathcheck.run(ctx, "C16_", ctx.pick(["pub_override", "aa_override"],
                                         ["pub_override", "pub_nooverride", "odpub_override", "rx", "aa_override", "aa_nooverride"]),
                   ["MonC16"])
+    stalewriter.run(ctx)
